@@ -32,6 +32,10 @@ def classify(c):
             return dict(layer="property", key=None,
                         what="end-to-end scenario hung: the group Readers did not finish within the 60 s watchdog"
                              + (" (also when re-run alone with the same seed)" if "confirmed-alone" in c["feats"] else ""), input=c)
+        if go.startswith("NILNOTRECORDED") and "commit-at-generation-end" in c["feats"]:
+            return dict(layer="property",
+                        what="real Reader on the wire-level broker: a synchronous CommitMessages issued while the generation was ending returned nil although the coordinator has not recorded its offset ("
+                             + go.partition(":")[2] + "; requests still queued in Reader.commits at ctx.Done must be drained BEFORE the final commit)", input=c)
         if go.startswith("NILNOTRECORDED"):
             return dict(layer="property",
                         what="wire level: a synchronous CommitMessages returned nil although the coordinator answered every OffsetCommit with an error code and recorded nothing ("
@@ -66,6 +70,22 @@ def classify(c):
         return dict(layer="property", what="offsetStash.merge/reset: stash is not the per-partition maximum of the merged commits", input=c)
     if op == "fo":
         return dict(layer="property", what="fetchOffsets/makeAssignments: start offset is not the committed offset (or StartOffset when none / negative)", input=c)
+    if op == "loopend":
+        if go.startswith("NILNOTRECORDED"):
+            return dict(layer="property",
+                        what="commit loop at generation end: a CommitMessages call whose request was still queued when the generation ended was answered nil although no accepted OffsetCommit covers it ("
+                             + go.partition(":")[2] + ")", input=c)
+        if go == "HANG":
+            return dict(layer="property", what="commit loop at generation end: the loop or a CommitMessages call did not return within the watchdog", input=c)
+        if go.startswith("UNEXPLAINED"):
+            return dict(layer="property",
+                        what="commit loop at generation end: an OffsetCommit request carries an offset that is not 1 + the offset of any queued CommitMessages call (" + go.partition(":")[2] + ")", input=c)
+        # the implementation's own observation satisfies the property (go == ok): the model driver
+        # found no (arrival order, k) schedule reproducing it — a gap of the MODEL or of the
+        # driver's search, never a property violation
+        return dict(layer="correspondence",
+                    what="commit loop at generation end: the observation satisfies the property, but no schedule of the model (any arrival order of the queued calls, any k handled singly with their own retries, "
+                         "the rest drained into one final commit) reproduces the observed OffsetCommit requests and results", input=c)
     if op == "loop":
         if go.startswith("HANG"):
             return dict(layer="correspondence", what="commit loop script hung (watchdog)", input=None)
@@ -101,8 +121,9 @@ def correspondence(ctx):
     loops = ctx.scale(40, 200)
     e2e = ctx.scale(72, 600)
     mrun = ctx.scale(300, 5000)
+    nend = ctx.scale(40, 300)
     rc, out, err, dt = L.sh([gobin, "-seed", str(ctx.seed), "-n", str(n), "-loops", str(loops),
-                             "-e2e", str(e2e), "-mrun", str(mrun)], timeout=ctx.scale(300, 2400))
+                             "-e2e", str(e2e), "-mrun", str(mrun), "-loopend", str(nend)], timeout=ctx.scale(300, 2400))
     if rc != 0:
         raise L.Fail("correspondence", "harness cmd/c03 crashed or hit the global time-out (panic/deadlock in the group Reader?)",
                      (out[-1500:] + err[-2500:]))
@@ -145,11 +166,15 @@ def correspondence(ctx):
                 rule="one PRNG (VERIF_SEED): step level = makeCommits, offsetStash.merge/reset, fetchOffsets+makeAssignments against a scripted coordinator "
                      "(committed / none / negative / omitted partitions, First/LastOffset); 'loop' = the real commitLoopImmediate/Interval + CommitMessages + "
                      "commitOffsetsWithRetry against scripted coordinator answers (ok, error codes 15/16/22/25/27, connection error, Reader stop during back-off), "
-                     "compared with the model's run of the same label sequence; 'hist' = 1-3 real group Readers (sync and interval commits, 1-2 topics, 1-3 partitions) "
+                     "compared with the model's run of the same label sequence; 'loopend' = the real commitLoopImmediate with 1-5 requests still queued in Reader.commits when the generation context ends "
+                     "(the loop's select picks at random between ctx.Done and the queue): a call answered nil must be covered by an accepted OffsetCommit, and the model driver must find a "
+                     "schedule of the model reproducing the observed requests and results; 'hist' = 1-3 real group Readers (sync and interval commits, 1-2 topics, 1-3 partitions) "
                      "on the wire-level fake broker (the coordinator connection is the real *Conn) with forced rebalances, evictions, members joining/leaving, error codes and dropped connections on "
                      "join/sync/heartbeat/offset-fetch/offset-commit, stale commits; 16 scripted 'wire-commit-codes' scenarios (OffsetCommit answers with each of 0,-1,1,16,22,25,27,32767 on every partition, "
                      "sync: nil implies recorded; interval: the stash survives and a later tick records) and 6 'evict-liveness' scenarios (UnknownMemberId on heartbeat and on the JoinGroup with the stale id; "
-                     "the member must reach a new generation and every stored record be delivered within 8 s; a stall is re-run once alone, three-strikes breaker); "
+                     "the member must reach a new generation and every stored record be delivered within 8 s; a stall is re-run once alone, three-strikes breaker) and 6 'commit-at-generation-end' scenarios "
+                     "(3-6 goroutines call the synchronous CommitMessages on distinct partitions while OffsetCommit answers are delayed and the generation is ended by a rebalance notice on the heartbeat, "
+                     "an eviction or Close, 5 rounds each; every nil is compared with what the coordinator recorded); "
                      "the globally sequenced history is checked by the extracted C03_holds/lost_b; "
                      "'mrun' = random label sequences run on the model and checked by the same predicate; a case is non-trivial when it has a feature tag beyond the mode; "
                      f"{len(nh)} histories with {events} events in this run",
